@@ -1263,8 +1263,12 @@ class NinjaBackend(backends.Backend):
             write = old != scaninfo
 
         if write:
-            with open(pickle_abs, 'wb') as p:
+            # Write through a temporary file: if Meson is interrupted here, a
+            # truncated pickle would make every later reconfigure fail above.
+            pickle_tmp = pickle_abs + '~'
+            with open(pickle_tmp, 'wb') as p:
                 pickle.dump(scaninfo, p)
+            os.replace(pickle_tmp, pickle_abs)
 
         elem = NinjaBuildElement(self.all_outputs, json_file, rule_name, pickle_file)
         # A full dependency is required on all scanned sources, if any of them
